@@ -39,12 +39,12 @@ type allocSite struct {
 
 // limit oracle: function -> accepted constant bounds (ORACLES.md A7)
 var limitOracle = map[string][]int64{
-	"xdrDecodeString":         {8192},
+	"xdrDecodeString":          {8192},
 	"(*byteReader).readString": {8192},
-	"DecodeRPCCall":           {400},
-	"(*Portmapper).skipAuth":  {400},
-	"xdrDecodeFileHandle":     {64},
-	"ParseAuthSysCredential":  {16},
+	"DecodeRPCCall":            {400},
+	"(*Portmapper).skipAuth":   {400},
+	"xdrDecodeFileHandle":      {64},
+	"ParseAuthSysCredential":   {16},
 }
 
 // boundFact: fact says K >= x or K > x (x bounded above by constant K) for x related to the wire origins.
@@ -210,7 +210,7 @@ func runC13(c *Ctx) {
 				continue
 			}
 			if bo, ok := ifi.Cond.(*ssa.BinOp); ok && bo.Op == token.GTR {
-				if k, isC := constInt(bo.Y); isC && k == 8192 && rejectEdgeFrom(p, b, b.Succs[0],true) {
+				if k, isC := constInt(bo.Y); isC && k == 8192 && rejectEdgeFrom(p, b, b.Succs[0], true) {
 					good = true
 				}
 			}
@@ -368,7 +368,7 @@ func runRecordRulesAs(c *Ctx, P string) {
 		}
 		for _, o := range fl.Origins(bo.X) {
 			if o.Kind == "call" && strings.Contains(o.Desc, "(*bytes.Buffer).Len") {
-				if _, f, ok := fieldLoad(o.Call.Common().Args[0]); ok && f == bufFld && rejectEdgeFrom(p, b, b.Succs[0],true) {
+				if _, f, ok := fieldLoad(o.Call.Common().Args[0]); ok && f == bufFld && rejectEdgeFrom(p, b, b.Succs[0], true) {
 					testOnBuf = true
 				}
 			}
@@ -689,11 +689,11 @@ func errSuccessEdge3(call ssa.CallInstruction) (succ, fail *ssa.BasicBlock, ok b
 
 // reviewed explicit panic hazards: function -> asserted type -> reason
 var hazardTable = map[string]string{
-	"(*uint64MinHeap).Push:uint64":                 "only (*uint64MinHeap).PushValue calls heap.Push, always with a uint64",
-	"(*uint64MinHeap).PopMin:uint64":               "heap.Pop returns what Push stored: uint64 only",
-	"(*RateLimiter).AllowRequest:*TokenBucket":     "perConnectionLimiter only ever stores *TokenBucket (LoadOrStore in the same function)",
-	"(*RateLimiter).AllocateFileHandle:int":        "fileHandlesPerIP only stores int (same function and ReleaseFileHandle); not reachable from requests",
-	"(*RateLimiter).ReleaseFileHandle:int":         "fileHandlesPerIP only stores int; not reachable from requests",
+	"(*uint64MinHeap).Push:uint64":             "only (*uint64MinHeap).PushValue calls heap.Push, always with a uint64",
+	"(*uint64MinHeap).PopMin:uint64":           "heap.Pop returns what Push stored: uint64 only",
+	"(*RateLimiter).AllowRequest:*TokenBucket": "perConnectionLimiter only ever stores *TokenBucket (LoadOrStore in the same function)",
+	"(*RateLimiter).AllocateFileHandle:int":    "fileHandlesPerIP only stores int (same function and ReleaseFileHandle); not reachable from requests",
+	"(*RateLimiter).ReleaseFileHandle:int":     "fileHandlesPerIP only stores int; not reachable from requests",
 }
 
 func runHazards(c *Ctx, ent *entries) {
